@@ -20,6 +20,7 @@ import (
 	"verif/internal/hx"
 	"verif/keys"
 	"verif/ref/refesl"
+	"verif/weakeq"
 )
 
 // ---- universe ----
@@ -560,7 +561,7 @@ func init() {
 					u = append(u, fmt.Sprintf("bfs#%d#%d", ii, oi))
 				}
 			}
-			return u
+			return append(u, "weakeq#SHA256#h1", "weakeq#X509#certA-DER", "weakeq#X509#certB-DER")
 		},
 		Run: c09Run,
 		Bound: func(tier string) map[string]any {
@@ -573,6 +574,10 @@ func init() {
 func c09Run(c *hx.Ctx, tier, unit string) {
 	c.NoOnly = true
 	parts := strings.Split(unit, "#")
+	if parts[0] == "weakeq" {
+		c09WeakEq(c, parts[1], parts[2])
+		return
+	}
 	ii, _ := strconv.Atoi(parts[1])
 	first, _ := strconv.Atoi(parts[2])
 	ops := c09Ops()
@@ -668,4 +673,63 @@ func c09Run(c *hx.Ctx, tier, unit string) {
 	}
 	c.Max("max:depth", uint64(maxDepth))
 	_ = sort.Strings
+}
+
+// c09WeakEq: membership must be decided by equality of the data, not by anything weaker. For every
+// weak-equality twin y of a stored value x (same CRC, same fold, same bytes in another order, common
+// prefix, ...): every sequence of up to three operations over {Append, Remove} x {x, y} is judged
+// step by step like the search does, from the empty database.
+func c09WeakEq(c *hx.Ctx, typ, xname string) {
+	c09Init()
+	var t *c09Type
+	for i := range c09Types {
+		if c09Types[i].name == typ {
+			t = &c09Types[i]
+		}
+	}
+	x := c09Data[xname]
+	for _, tw := range weakeq.Twins(x) {
+		yname := "another value with " + tw.Name + " as " + xname
+		c09Data[yname] = tw.Value
+		var ops []c09Op
+		for _, d := range []string{xname, yname} {
+			ops = append(ops, c09Op{name: fmt.Sprintf("Append(%s,O1,%s)", t.name, d), kind: "append", t: t, own: 0, data: d},
+				c09Op{name: fmt.Sprintf("Remove(%s,O1,%s)", t.name, d), kind: "remove", t: t, own: 0, data: d})
+		}
+		c09InitialDup = map[string]int{}
+		var rec func(path []int)
+		rec = func(path []int) {
+			for oi := range ops {
+				c.Next()
+				db := signature.NewSignatureDatabase()
+				names := []string{"init: empty database"}
+				for _, pi := range path {
+					c09Apply(db, ops[pi])
+					names = append(names, ops[pi].name)
+				}
+				names = append(names, ops[oi].name)
+				v, d, skipped := c09Check(db, ops[oi])
+				if skipped {
+					continue
+				}
+				c.Count("transitions", 1)
+				if v != "" {
+					c.Outcome("step-violation")
+					c.Violation("C09 "+v, map[string]any{"history": names, "detail": d})
+					continue
+				}
+				if iv, d := c09Invariants(db); iv != "" {
+					c.Outcome("state-violation")
+					c.Violation("C09 state invariant: "+iv, map[string]any{"history": names, "detail": d})
+					continue
+				}
+				c.Outcome("state-ok")
+				c.Nontrivial([]byte(c09Key(db)))
+				if len(path) < 2 {
+					rec(append(append([]int{}, path...), oi))
+				}
+			}
+		}
+		rec(nil)
+	}
 }
